@@ -2149,6 +2149,15 @@ def install_models(I):
     for ty_, b_ in (("u8", 8), ("u16", 16), ("u32", 32), ("u64", 64), ("usize", 64)):
         S.append(("num::%s@TryFrom::try_from" % ty_, int_try_from(b_)))
 
+    def int_try_into(I, a, f):
+        # the blanket `impl<T, U: TryFrom<T>> TryInto<U> for T`: dispatch on the target type U
+        ga = [str(g) for g in (getattr(f, "ga", None) or [])]
+        bits = {"u8": 8, "u16": 16, "u32": 32, "u64": 64, "usize": 64}.get(ga[1] if len(ga) > 1 else "")
+        if bits is None or ga[0] not in ("u8", "u16", "u32", "u64", "usize"):
+            raise Unanalysable("try_into with type arguments %r" % (ga,))
+        return int_try_from(bits)(I, a, f)
+    S.append(("convert::T@TryInto::try_into", int_try_into))
+
     def abs_diff(I, a, f):
         if isinstance(a[0], int) and isinstance(a[1], int):
             return abs(a[0] - a[1])
